@@ -127,7 +127,7 @@ def main(argv):
     if b['shape_error']:
         broken.append('table extraction (source shape changed): ' + b['shape_error'])
     if not b['model_ok']:
-        broken.append('model build/extraction failed')
+        broken.append('model build/extraction failed: ' + b.get('model_log', '')[-1200:])
     for h in b['gate']:
         broken.append('forbidden vernacular: ' + h)
     pr = b['props']
